@@ -309,6 +309,23 @@ REGISTRY = {
         "correspondence": "Lmd.syncTable / Lmd.coerce / Lmd.buildIdLists vs CreateObjectByType / interface2* / buildDowntimeCommentsList",
         "assumptions": QUERY_ASSUMPTIONS + ["the scripted backend (own parser/evaluator) is trusted", "xxhash32 collisions of different lists are not generated (content comparison added by fix 0ebe0ec makes them harmless)"],
     },
+    "C19": {
+        "lean_modules": ["C19"],
+        "run": worldfam.run_c19,
+        "rule": "multi-flavour datasets (value shapes of C02) are synchronised from scripted backends, written with the real Exporter into a tarball and loaded with the real importer into a second daemon; "
+                "40 generated data/Stats/sorted/limited/AuthUser requests per snapshot are answered by both instances and compared with the model of the synchronised cache",
+        "correspondence": "exporting instance = importing instance = Lmd.syncBackend (same queries)",
+        "assumptions": QUERY_ASSUMPTIONS + ["non-UTF-8 bytes are not generated (they are replaced by U+FFFD on export)"],
+    },
+    "C13": {
+        "lean_modules": ["C13"],
+        "run": worldfam.run_c13,
+        "rule": "traces of 4-25 events over {time passes d seconds, update tick, backend switched ok/refusing/garbage/error code/closing early/bad header/truncating, client data query, sites query} on a real Peer wired to a scripted backend, "
+                "1-3 source addresses (dead ones first/last/between), settings grid over UpdateInterval/StaleBackendTimeout/IdleTimeout/IdleInterval; after every event status, data presence, idling, error count, last_online/last_update ages, "
+                "flags and the number of queries the backend received are compared with Lmd.tick / Lmd.clientQuery; non-trivial = at least 6 steps",
+        "correspondence": "Lmd.PeerSt.fail / recovered / tick / clientQuery / initAllTables vs setNextAddrFromErr / resetErrors / periodicUpdate / ResumeFromIdle / InitAllTables",
+        "assumptions": ["virtual clock (overlay patch of currentUnixTime), whole seconds", "BackendKeepAlive off, MaxParallelPeerConnections 1 (serial init)", "fallback addresses and HTTP backends are not modelled"],
+    },
     "C04": {
         "lean_modules": ["C04"],
         "run": mk_query_runner(c04_opts, 500, 8000),
